@@ -1,4 +1,5 @@
 import Ruint.Lemmas.InvRing
+import Ruint.Gen.InvRingConsts
 
 /-!
 # C02 — multiplication is exact: wrapping, overflow flag, widening product, ring inverse
@@ -162,6 +163,16 @@ theorem product_spec (bits : ℕ) (l : List (List ℕ)) (hl : ∀ x ∈ l, Canon
     have := key l (one bits) hl hone.1
     rw [hone.2, Nat.one_mul] at this
     exact this
+
+/-! ## generated facts (G): the first-limb block of `inv_ring` as re-extracted from `src/mul.rs` on this run
+
+`Ruint/Gen/InvRingConsts.lean` is rewritten from the current source (`W2`, `W3`, the seed expression, the
+number of `inv *= W2 - n * inv` lines) by `tools/props/c02.py: translate` before every build. A changed
+constant or a dropped Newton step breaks this proof even if no sampled input notices (in release builds
+the `debug_assert_eq!` that would catch it is compiled out). -/
+theorem gen_inv64_correct (n : ℕ) (hodd : n % 2 = 1) : (n * Gen.InvRing.inv64 n) % W = 1 := by
+  have e : Gen.InvRing.inv64 n = Mul.inv64 n := rfl
+  rw [e]; exact inv64_correct n hodd
 
 /-! Non-vacuity: concrete non-trivial instances evaluated by the kernel. -/
 -- U65: 2^64 · 2^64 overflows through the kernel flag (result limbs zero)
